@@ -8,7 +8,7 @@ use crate::kit::rng::Streams;
 use crate::kit::sim::{guarded, hash_bytes, Op, Scenario, Stats, Step, Violation};
 use ppv_lite86::*;
 
-pub type Regs = [[u8; 64]; 4];
+pub use super::vecops_core::Regs;
 
 pub struct World {
     pub regs: Vec<Regs>,
@@ -26,356 +26,56 @@ pub const MACHINES: [&str; 1] = ["Generic"];
 
 pub const TYPES: [&str; 10] = ["u32x4", "u64x2", "u128x1", "u32x4x2", "u64x2x2", "u64x4", "u128x2", "u32x4x4", "u64x2x4", "u128x4"];
 
-fn w128(b: &[u8]) -> vec128_storage {
-    let mut w = [0u32; 4];
-    for i in 0..4 {
-        w[i] = u32::from_le_bytes([b[4 * i], b[4 * i + 1], b[4 * i + 2], b[4 * i + 3]]);
-    }
-    vec128_storage::from(w)
-}
-fn b128(s: vec128_storage, out: &mut [u8]) {
-    let w: [u32; 4] = s.into();
-    for i in 0..4 {
-        out[4 * i..4 * i + 4].copy_from_slice(&w[i].to_le_bytes());
-    }
-}
-fn ld128<M: Machine, V: Store<vec128_storage>>(m: M, b: &[u8]) -> V {
-    m.unpack(w128(&b[..16]))
-}
-fn ld256<M: Machine, V: Store<vec256_storage>>(m: M, b: &[u8]) -> V {
-    m.unpack(vec256_storage::new128([w128(&b[..16]), w128(&b[16..32])]))
-}
-fn ld512<M: Machine, V: Store<vec512_storage>>(m: M, b: &[u8]) -> V {
-    m.unpack(vec512_storage::new128([w128(&b[..16]), w128(&b[16..32]), w128(&b[32..48]), w128(&b[48..64])]))
-}
-fn st128<V: Into<vec128_storage>>(v: V, out: &mut [u8; 64]) {
-    b128(v.into(), &mut out[..16]);
-}
-fn st256<V: Into<vec256_storage>>(v: V, out: &mut [u8; 64]) {
-    let s: vec256_storage = v.into();
-    let [a, b] = s.split128();
-    b128(a, &mut out[..16]);
-    b128(b, &mut out[16..32]);
-}
-fn st512<V: Into<vec512_storage>>(v: V, out: &mut [u8; 64]) {
-    let s: vec512_storage = v.into();
-    let [a, b, c, d] = s.split128();
-    b128(a, &mut out[..16]);
-    b128(b, &mut out[16..32]);
-    b128(c, &mut out[32..48]);
-    b128(d, &mut out[48..64]);
-}
+pub use super::vecops_core::{exec, GROUPS};
+use super::vecops_core::{ld256, ld512, st256, st512};
 
-fn bit0<V: BitOps0>(k: u32, a: V, b: V) -> V {
-    match k % 6 {
-        0 => a ^ b,
-        1 => a & b,
-        2 => a | b,
-        3 => !a,
-        4 => a.andnot(b),
-        _ => {
-            let mut x = a;
-            x ^= b;
-            x
-        }
-    }
-}
-fn rot32<V: RotateEachWord32>(k: u32, a: V) -> V {
-    match k % 8 {
-        0 => a.rotate_each_word_right7(),
-        1 => a.rotate_each_word_right8(),
-        2 => a.rotate_each_word_right11(),
-        3 => a.rotate_each_word_right12(),
-        4 => a.rotate_each_word_right16(),
-        5 => a.rotate_each_word_right20(),
-        6 => a.rotate_each_word_right24(),
-        _ => a.rotate_each_word_right25(),
-    }
-}
-fn arith<V: ArithOps>(k: u32, a: V, b: V) -> V {
-    match k % 3 {
-        0 => a + b,
-        1 => {
-            let mut x = a;
-            x += b;
-            x
-        }
-        _ => a.bswap(),
-    }
-}
-fn swap<V: Swap64>(k: u32, a: V) -> V {
-    match k % 7 {
-        0 => a.swap1(),
-        1 => a.swap2(),
-        2 => a.swap4(),
-        3 => a.swap8(),
-        4 => a.swap16(),
-        5 => a.swap32(),
-        _ => a.swap64(),
-    }
-}
-fn words4<V: Words4>(k: u32, a: V) -> V {
-    match k % 3 {
-        0 => a.shuffle1230(),
-        1 => a.shuffle2301(),
-        _ => a.shuffle3012(),
-    }
-}
-fn lanewords4<V: LaneWords4>(k: u32, a: V) -> V {
-    match k % 3 {
-        0 => a.shuffle_lane_words1230(),
-        1 => a.shuffle_lane_words2301(),
-        _ => a.shuffle_lane_words3012(),
-    }
-}
-fn bytes_roundtrip<V: StoreBytes, M: Machine>(m: M, k: u32, a: V, size: usize) -> V {
-    // write in one byte order, read back in the other (or the same): a pure byte permutation
-    let mut buf = [0u8; 64];
-    match k % 4 {
-        0 => {
-            a.write_le(&mut buf[..size]);
-            m.read_le(&buf[..size])
-        }
-        1 => {
-            a.write_be(&mut buf[..size]);
-            m.read_be(&buf[..size])
-        }
-        2 => {
-            a.write_le(&mut buf[..size]);
-            m.read_be(&buf[..size])
-        }
-        _ => {
-            a.write_be(&mut buf[..size]);
-            m.read_le(&buf[..size])
-        }
-    }
-}
-
-/// group numbering (shared by all types; a type that lacks a group maps it to bit0)
-pub const GROUPS: [&str; 12] = ["bit0", "rot32", "rot64", "arith", "swap", "words4", "lanewords4", "extract_insert", "lanes", "bytes", "eq", "special"];
-
-/// lane index for extract/insert: in range, unless bit 7 of imm is set - then any small index, possibly out of range
-/// (every backend must then behave alike: all refuse, or all return the same)
-fn idx(imm: u32, shift: u32, lanes: u32) -> u32 {
-    if imm & 0x80 != 0 {
-        (imm >> shift) % 8
-    } else {
-        (imm >> shift) % lanes
-    }
-}
-
-fn exec<M: Machine>(m: M, ty: usize, group: usize, k: u32, imm: u32, regs: &mut Regs, dst: usize, ia: usize, ib: usize)
+/// group 12: conversions between the 128-bit-word view and the other views of the same width. They exist on the x86
+/// machines only (not in the trait bounds, not on the generic backend); they must not change a bit, so the portable
+/// build's transcript (where the step is the identity) still has to agree.
+#[cfg(not(hostbuild_portable))]
+fn exec_conv<M: Machine>(m: M, k: u32, regs: &mut Regs, dst: usize, ia: usize)
 where
-    M::u32x4: PartialEq,
-    M::u64x2: PartialEq,
+    M::u128x1: Into<M::u32x4> + Into<M::u64x2>,
+    M::u128x2: Into<M::u32x4x2> + Into<M::u64x2x2> + Into<M::u64x4>,
+    M::u128x4: Into<M::u32x4x4> + Into<M::u64x2x4>,
 {
+    use super::vecops_core::{ld128, st128};
     let ra = regs[ia];
-    let rb = regs[ib];
     let out = &mut regs[dst];
-    match ty {
+    match k % 7 {
         0 => {
-            let a: M::u32x4 = ld128(m, &ra);
-            let b: M::u32x4 = ld128(m, &rb);
-            let r: M::u32x4 = match group {
-                1 => rot32(k, a),
-                3 => arith(k, a, b),
-                5 => words4(k, a),
-                6 => lanewords4(k, a),
-                7 => a.insert(b.extract(idx(imm, 0, 4)), idx(imm, 3, 4)),
-                8 => {
-                    let l: [u32; 4] = a.to_lanes();
-                    let p = (imm % 4) as usize;
-                    m.vec([l[p], l[(p + 1) % 4], l[(p + 3) % 4], l[(p + 2) % 4]])
-                }
-                9 => bytes_roundtrip(m, k, a, 16),
-                10 => {
-                    if (a == b) == (b == a) && a == a {
-                        if a == b {
-                            !a
-                        } else {
-                            a ^ b
-                        }
-                    } else {
-                        a & b
-                    }
-                }
-                _ => bit0(k, a, b),
-            };
+            let a: M::u128x1 = ld128(m, &ra);
+            let r: M::u32x4 = a.into();
             st128(r, out)
         }
         1 => {
-            let a: M::u64x2 = ld128(m, &ra);
-            let b: M::u64x2 = ld128(m, &rb);
-            let r: M::u64x2 = match group {
-                1 => rot32(k, a),
-                2 => a.rotate_each_word_right32(),
-                3 => arith(k, a, b),
-                7 => a.insert(b.extract(idx(imm, 0, 2)), idx(imm, 3, 2)),
-                8 => {
-                    let l: [u64; 2] = a.to_lanes();
-                    m.vec([l[1], l[0]])
-                }
-                10 => {
-                    if a == b {
-                        !a
-                    } else {
-                        a ^ b
-                    }
-                }
-                _ => bit0(k, a, b),
-            };
+            let a: M::u128x1 = ld128(m, &ra);
+            let r: M::u64x2 = a.into();
             st128(r, out)
         }
         2 => {
-            let a: M::u128x1 = ld128(m, &ra);
-            let b: M::u128x1 = ld128(m, &rb);
-            let r: M::u128x1 = match group {
-                1 => rot32(k, a),
-                2 => a.rotate_each_word_right32(),
-                4 => swap(k, a),
-                8 => {
-                    let l: [u128; 1] = a.to_lanes();
-                    m.vec([l[0].rotate_left(imm % 128)])
-                }
-                _ => bit0(k, a, b),
-            };
-            st128(r, out)
+            let a: M::u128x2 = ld256(m, &ra);
+            let r: M::u32x4x2 = a.into();
+            st256(r, out)
         }
         3 => {
-            let a: M::u32x4x2 = ld256(m, &ra);
-            let b: M::u32x4x2 = ld256(m, &rb);
-            let r: M::u32x4x2 = match group {
-                1 => rot32(k, a),
-                3 => arith(k, a, b),
-                7 => a.insert(b.extract(idx(imm, 0, 2)), idx(imm, 3, 2)),
-                8 => {
-                    let l: [M::u32x4; 2] = a.to_lanes();
-                    M::u32x4x2::from_lanes([l[1], l[0]])
-                }
-                9 => bytes_roundtrip(m, k, a, 32),
-                _ => bit0(k, a, b),
-            };
+            let a: M::u128x2 = ld256(m, &ra);
+            let r: M::u64x2x2 = a.into();
             st256(r, out)
         }
         4 => {
-            let a: M::u64x2x2 = ld256(m, &ra);
-            let b: M::u64x2x2 = ld256(m, &rb);
-            let r: M::u64x2x2 = match group {
-                1 => rot32(k, a),
-                2 => a.rotate_each_word_right32(),
-                3 => arith(k, a, b),
-                7 => a.insert(b.extract(idx(imm, 0, 2)), idx(imm, 3, 2)),
-                8 => {
-                    let l: [M::u64x2; 2] = a.to_lanes();
-                    M::u64x2x2::from_lanes([l[1], l[0]])
-                }
-                9 => bytes_roundtrip(m, k, a, 32),
-                _ => bit0(k, a, b),
-            };
+            let a: M::u128x2 = ld256(m, &ra);
+            let r: M::u64x4 = a.into();
             st256(r, out)
         }
         5 => {
-            let a: M::u64x4 = ld256(m, &ra);
-            let b: M::u64x4 = ld256(m, &rb);
-            let r: M::u64x4 = match group {
-                1 => rot32(k, a),
-                2 => a.rotate_each_word_right32(),
-                3 => arith(k, a, b),
-                5 => words4(k, a),
-                7 => a.insert(b.extract(idx(imm, 0, 4)), idx(imm, 3, 4)),
-                8 => {
-                    let l: [u64; 4] = a.to_lanes();
-                    let p = (imm % 4) as usize;
-                    M::u64x4::from_lanes([l[p], l[(p + 2) % 4], l[(p + 1) % 4], l[(p + 3) % 4]])
-                }
-                9 => bytes_roundtrip(m, k, a, 32),
-                _ => bit0(k, a, b),
-            };
-            st256(r, out)
-        }
-        6 => {
-            let a: M::u128x2 = ld256(m, &ra);
-            let b: M::u128x2 = ld256(m, &rb);
-            let r: M::u128x2 = match group {
-                1 => rot32(k, a),
-                2 => a.rotate_each_word_right32(),
-                4 => swap(k, a),
-                7 => a.insert(b.extract(idx(imm, 0, 2)), idx(imm, 3, 2)),
-                8 => {
-                    let l: [M::u128x1; 2] = a.to_lanes();
-                    M::u128x2::from_lanes([l[1], l[0]])
-                }
-                _ => bit0(k, a, b),
-            };
-            st256(r, out)
-        }
-        7 => {
-            let a: M::u32x4x4 = ld512(m, &ra);
-            let b: M::u32x4x4 = ld512(m, &rb);
-            let r: M::u32x4x4 = match group {
-                1 => rot32(k, a),
-                3 => arith(k, a, b),
-                6 => lanewords4(k, a),
-                7 => a.insert(b.extract(idx(imm, 0, 4)), idx(imm, 3, 4)),
-                8 => {
-                    let l: [M::u32x4; 4] = a.to_lanes();
-                    let p = (imm % 4) as usize;
-                    M::u32x4x4::from_lanes([l[p], l[(p + 1) % 4], l[(p + 3) % 4], l[(p + 2) % 4]])
-                }
-                9 => bytes_roundtrip(m, k, a, 64),
-                11 => {
-                    if k % 2 == 0 {
-                        // transpose4 of (a, b, a^b, !a): keep one of the four results
-                        let (t0, t1, t2, t3) = M::u32x4x4::transpose4(a, b, a ^ b, !a);
-                        match imm % 4 {
-                            0 => t0,
-                            1 => t1,
-                            2 => t2,
-                            _ => t3,
-                        }
-                    } else {
-                        let s: [u32; 16] = a.to_scalars();
-                        let mut bytes = [0u8; 64];
-                        for i in 0..16 {
-                            bytes[4 * i..4 * i + 4].copy_from_slice(&s[(i + imm as usize) % 16].to_le_bytes());
-                        }
-                        ld512(m, &bytes)
-                    }
-                }
-                _ => bit0(k, a, b),
-            };
-            st512(r, out)
-        }
-        8 => {
-            let a: M::u64x2x4 = ld512(m, &ra);
-            let b: M::u64x2x4 = ld512(m, &rb);
-            let r: M::u64x2x4 = match group {
-                1 => rot32(k, a),
-                2 => a.rotate_each_word_right32(),
-                3 => arith(k, a, b),
-                7 => a.insert(b.extract(idx(imm, 0, 4)), idx(imm, 3, 4)),
-                8 => {
-                    let l: [M::u64x2; 4] = a.to_lanes();
-                    M::u64x2x4::from_lanes([l[3], l[0], l[1], l[2]])
-                }
-                _ => bit0(k, a, b),
-            };
+            let a: M::u128x4 = ld512(m, &ra);
+            let r: M::u32x4x4 = a.into();
             st512(r, out)
         }
         _ => {
             let a: M::u128x4 = ld512(m, &ra);
-            let b: M::u128x4 = ld512(m, &rb);
-            let r: M::u128x4 = match group {
-                1 => rot32(k, a),
-                2 => a.rotate_each_word_right32(),
-                4 => swap(k, a),
-                7 => a.insert(b.extract(idx(imm, 0, 4)), idx(imm, 3, 4)),
-                8 => {
-                    let l: [M::u128x1; 4] = a.to_lanes();
-                    M::u128x4::from_lanes([l[1], l[2], l[3], l[0]])
-                }
-                _ => bit0(k, a, b),
-            };
+            let r: M::u64x2x4 = a.into();
             st512(r, out)
         }
     }
@@ -384,6 +84,18 @@ where
 #[cfg(not(hostbuild_portable))]
 fn exec_on(mi: usize, ty: usize, group: usize, k: u32, imm: u32, regs: &mut Regs, dst: usize, ia: usize, ib: usize) {
     use ppv_lite86::x86_64::{AVX, AVX2, SSE2, SSE41, SSSE3};
+    if group == 12 {
+        unsafe {
+            match mi {
+                0 => exec_conv(SSE2::instance(), k, regs, dst, ia),
+                1 => exec_conv(SSSE3::instance(), k, regs, dst, ia),
+                2 => exec_conv(SSE41::instance(), k, regs, dst, ia),
+                3 => exec_conv(AVX::instance(), k, regs, dst, ia),
+                _ => exec_conv(AVX2::instance(), k, regs, dst, ia),
+            }
+        }
+        return;
+    }
     unsafe {
         match mi {
             0 => exec(SSE2::instance(), ty, group, k, imm, regs, dst, ia, ib),
@@ -397,6 +109,17 @@ fn exec_on(mi: usize, ty: usize, group: usize, k: u32, imm: u32, regs: &mut Regs
 #[cfg(hostbuild_portable)]
 fn exec_on(_mi: usize, ty: usize, group: usize, k: u32, imm: u32, regs: &mut Regs, dst: usize, ia: usize, ib: usize) {
     use ppv_lite86::generic::GenericMachine;
+    if group == 12 {
+        // a conversion keeps every bit: copy the operand's bits of that width
+        let width = match k % 7 {
+            0 | 1 => 16,
+            2 | 3 | 4 => 32,
+            _ => 64,
+        };
+        let ra = regs[ia];
+        regs[dst][..width].copy_from_slice(&ra[..width]);
+        return;
+    }
     unsafe { exec(GenericMachine::instance(), ty, group, k, imm, regs, dst, ia, ib) }
 }
 
@@ -458,7 +181,7 @@ impl Scenario for S8 {
             "vop",
             &[
                 ("ty", r.below(10) as u128),
-                ("group", r.below(12) as u128),
+                ("group", r.below(13) as u128),
                 ("k", r.below(8) as u128),
                 ("imm", r.below(256) as u128),
                 ("dst", r.below(4) as u128),
@@ -473,10 +196,11 @@ impl Scenario for S8 {
         }
         w.steps += 1;
         let ty = (op.get("ty") % 10) as usize;
-        let group = (op.get("group") % 12) as usize;
+        let group = (op.get("group") % 13) as usize;
         let (k, imm) = (op.get("k") as u32, op.get("imm") as u32);
         let (dst, ia, ib) = ((op.get("dst") % 4) as usize, (op.get("a") % 4) as usize, (op.get("b") % 4) as usize);
-        stats.hit(&format!("op.{}.{}", TYPES[ty], GROUPS[group]));
+        let gname = if group == 12 { "convert" } else { GROUPS[group] };
+        stats.hit(&format!("op.{}.{}", TYPES[ty], gname));
         let mut outcomes: Vec<Result<(), String>> = Vec::new();
         for mi in 0..w.regs.len() {
             let regs = &mut w.regs[mi];
@@ -490,15 +214,15 @@ impl Scenario for S8 {
             return Step::Fail(Violation::new(
                 &["C03"],
                 "V2",
-                format!("vector op panics on some backends only:{}:{}:{}", TYPES[ty], GROUPS[group], names.join("+")),
-                format!("{} {} k={} imm={}: {}", TYPES[ty], GROUPS[group], k, imm, outcomes[panicked[0]].clone().unwrap_err()),
+                format!("vector op panics on some backends only:{}:{}:{}", TYPES[ty], gname, names.join("+")),
+                format!("{} {} k={} imm={}: {}", TYPES[ty], gname, k, imm, outcomes[panicked[0]].clone().unwrap_err()),
             ));
         }
         if panicked.len() == outcomes.len() {
             // every machine of this build refuses: the transcript records it (another build may not)
             w.log = (w.log.rotate_left(7) ^ op.hash()).wrapping_mul(0x9e37_79b9_7f4a_7c15) ^ 0xdead;
             stats.hit("probe.op_panics_on_every_machine_of_this_build");
-            stats.hit(&format!("refused_everywhere.{}.{}", TYPES[ty], GROUPS[group]));
+            stats.hit(&format!("refused_everywhere.{}.{}", TYPES[ty], gname));
             return Step::Done;
         }
         let r0 = w.regs[0];
@@ -515,8 +239,8 @@ impl Scenario for S8 {
                 return Step::Fail(Violation::new(
                     &["C03"],
                     "V1",
-                    format!("vector op differs between backends:{}:{}:{}", TYPES[ty], GROUPS[group], odd.join("+")),
-                    format!("{} {} k={} imm={} on registers {} {}: machine {} differs from {}", TYPES[ty], GROUPS[group], k, imm, ia, ib, MACHINES[mi], MACHINES[0]),
+                    format!("vector op differs between backends:{}:{}:{}", TYPES[ty], gname, odd.join("+")),
+                    format!("{} {} k={} imm={} on registers {} {}: machine {} differs from {}", TYPES[ty], gname, k, imm, ia, ib, MACHINES[mi], MACHINES[0]),
                 ));
             }
         }
